@@ -175,6 +175,11 @@ class LockStep:
                 self.rec.pop()
                 for m in (self.model, self.twin):
                     m.zero_grad(set_to_none=True)
+                if isinstance(self.scale_json, dict):
+                    # the usual reason for discarding a batch is an overflow, after which a dynamic loss scale backs off
+                    self.scale = self._scale_at(self.iter)
+                    self.ref.grad_scale = self.scale
+                    self.iter += 1
                 continue
             n = sizes[item % len(sizes)]
             x = kmodel.make_input(c['spec'], n, seed * 1009 + item * 101 + 1, c.get('style', 'gauss'), self.pd)
